@@ -124,8 +124,6 @@ def run_case(case):
         n = max(len(A) + slA, len(B) + slB)
         slA, slB = n - len(A), n - len(B)
     PA, PB = A + [0] * slA, B + [0] * slB        # padded
-    if group == 'cmp' and not PA and not PB:   # `<` of two LENGTH-0 secure polynomials raises IndexError (np_fromlist([]) in _lt): note in the report
-        PA = [0]
     if 'PA' in case:     # explicit inputs (replays are independent of the generator)
         PA, PB = [int(x) for x in case['PA']], [int(x) for x in case['PB']]
         A, B = plist(poly, poly(list(PA))), plist(poly, poly(list(PB)))   # NB gfpx strips the list it is given IN PLACE
@@ -424,6 +422,11 @@ def make_cases(ctx, extra):
             for (m, np_) in ((1, False), (3, False)):
                 cases.append({'group': group, 'p': p, 'm': m, 'no_prss': np_, 'seed': rng.randrange(1 << 30),
                               'PA': PA, 'PB': PB, 'e0': e0})
+    # zero polynomials with length bound 0 (what secpoly(poly(0)) and every coerced public 0 give): comparisons among them and
+    # with padded zeros (repo fixes aa19fb2, a91215f: IndexError in _lt and in np_all of an empty array)
+    for PA, PB in (([], []), ([], [0]), ([0, 0], []), ([], [3, 1])):
+        for (m, np_) in ((1, False), (3, True)):
+            cases.append({'group': 'cmp', 'p': 11, 'm': m, 'no_prss': np_, 'seed': rng.randrange(1 << 30), 'PA': PA, 'PB': PB})
     for _ in range(extra):
         m, np_ = rng.choice(CONFIGS + [(3, False), (3, True)])
         g, p = rng.choice(GROUPS), rng.choice(PRIMES)
